@@ -1047,10 +1047,8 @@ def substitute_aliases(fn, known_locals):
           rebound = {n.id for n in ast.walk(fn) if isinstance(n, ast.Name) and
                      isinstance(n.ctx, (ast.Store, ast.Del)) and
                      s.lineno < getattr(n, 'lineno', 0) <= last}
-          in_loop = any(isinstance(l, (ast.For, ast.While)) and any(
-              y is s for y in ast.walk(l)) for l in ast.walk(fn))
-          if in_loop:
-            rebound = rebound | {k for k, v in stores.items() if v}
+          # (inside a loop the definition is executed again before every use
+          # of the next iteration: all uses follow it in this block)
           if x in rebound or (isinstance(idx, ast.Name) and idx.id in rebound):
             continue
           uses_in = [n for st in block[i + 1:] for n in ast.walk(st)
